@@ -207,3 +207,178 @@ Proof.
   - destruct tok as [|c tok]; [discriminate|]. cbn in *. apply andb_true_iff in Htok.
     destruct Htok as [Hc _]. apply andb_true_iff in Hc. destruct Hc as [Hc _]. apply negb_true_iff in Hc. exact Hc.
 Qed.
+
+(* ------------------------------------------------------------------------------------ *)
+(* %lf: exact decimal value                                                             *)
+
+
+Lemma Qpower10_nonneg x : 0 <= x -> Qpower (10 # 1) x == inject_Z (10 ^ x).
+Proof. intros H. rewrite Zpower_Qpower by assumption. reflexivity. Qed.
+
+Lemma Qpower10_neg x : x < 0 -> Qpower (10 # 1) x == 1 # Z.to_pos (10 ^ (- x)).
+Proof.
+  intros H. replace x with (- - x) at 1 by lia. rewrite Qpower_opp, Qpower10_nonneg by lia.
+  assert (0 < 10 ^ (- x)) as Hp by (apply Z.pow_pos_nonneg; lia).
+  destruct (10 ^ (- x)) as [|p|p]; try lia. reflexivity.
+Qed.
+
+Definition raw_dec (neg : bool) (mant scale : Z) : Q :=
+  let m := if neg then - mant else mant in
+  if 0 <=? scale then (m * 10 ^ scale) # 1 else m # Z.to_pos (10 ^ (- scale)).
+
+Lemma dec_value_raw neg m s : dec_value neg m s = Qred (raw_dec neg m s).
+Proof. reflexivity. Qed.
+
+Lemma pow10_pos a : 0 <= a -> 0 < 10 ^ a.
+Proof. intros. apply Z.pow_pos_nonneg; lia. Qed.
+
+Lemma raw_dec_pos I F k x :
+  0 <= k ->
+  raw_dec false (I * 10 ^ k + F) (x - k) == (inject_Z I + (F # Z.to_pos (10 ^ k))) * Qpower (10 # 1) x.
+Proof.
+  intros Hk. unfold raw_dec.
+  pose proof (pow10_pos k Hk) as Pk.
+  destruct (Z.leb_spec 0 (x - k)) as [Hs|Hs].
+  - rewrite Qpower10_nonneg by lia.
+    assert (10 ^ x = 10 ^ (x - k) * 10 ^ k) as E by (rewrite <- Z.pow_add_r by lia; f_equal; lia).
+    pose proof (pow10_pos (x - k) Hs) as Ps.
+    unfold Qeq, Qmult, Qplus, inject_Z; cbn [Qnum Qden].
+    rewrite ?Pos2Z.inj_mul, ?Z2Pos.id by lia. rewrite E. ring.
+  - destruct (Z.leb_spec 0 x) as [Hx|Hx].
+    + rewrite Qpower10_nonneg by lia.
+      assert (10 ^ k = 10 ^ (k - x) * 10 ^ x) as E by (rewrite <- Z.pow_add_r by lia; f_equal; lia).
+      assert (0 < 10 ^ (k - x)) as Ps by (apply pow10_pos; lia).
+      replace (- (x - k)) with (k - x) by lia.
+      unfold Qeq, Qmult, Qplus, inject_Z; cbn [Qnum Qden].
+      rewrite ?Pos2Z.inj_mul, ?Z2Pos.id by lia. rewrite E. ring.
+    + rewrite Qpower10_neg by lia.
+      assert (10 ^ (k - x) = 10 ^ k * 10 ^ (- x)) as E by (rewrite <- Z.pow_add_r by lia; f_equal; lia).
+      assert (0 < 10 ^ (- x)) as Ps by (apply pow10_pos; lia).
+      replace (- (x - k)) with (k - x) by lia.
+      unfold Qeq, Qmult, Qplus, inject_Z; cbn [Qnum Qden].
+      rewrite ?Pos2Z.inj_mul, ?Z2Pos.id by lia. rewrite E. rewrite ?Z2Pos.id by nia. ring.
+Qed.
+
+Lemma raw_dec_neg m s : raw_dec true m s == - raw_dec false m s.
+Proof.
+  unfold raw_dec. destruct (0 <=? s); unfold Qeq, Qopp; cbn [Qnum Qden]; ring.
+Qed.
+
+(* ------------------------------------------------------------------------------------ *)
+(* %lf: the scanner inverts render_wlit                                                 *)
+
+
+Definition frac_digits (w : wlit) : list byte := match wl_frac w with None => [] | Some f => f end.
+
+Lemma wlit_value_raw w :
+  wlit_value w ==
+  raw_dec (sign_neg (wl_sign w)) (digits_value (wl_int w ++ frac_digits w))
+          (wlit_exp w - Z.of_nat (length (frac_digits w))).
+Proof.
+  unfold wlit_value. rewrite digits_value_app.
+  assert (raw_dec false (digits_value (wl_int w) * 10 ^ Z.of_nat (length (frac_digits w)) + digits_value (frac_digits w))
+                  (wlit_exp w - Z.of_nat (length (frac_digits w)))
+          == (inject_Z (digits_value (wl_int w)) +
+              match wl_frac w with
+              | None => 0%Q
+              | Some f => digits_value f # Z.to_pos (10 ^ Z.of_nat (length f))
+              end) * Qpower (10 # 1) (wlit_exp w)) as E.
+  { rewrite raw_dec_pos by lia. unfold frac_digits. destruct (wl_frac w); reflexivity. }
+  destruct (sign_neg (wl_sign w)).
+  - rewrite raw_dec_neg, E. reflexivity.
+  - rewrite E. reflexivity.
+Qed.
+
+Definition render_frac (fr : option (list byte)) : list byte := match fr with None => [] | Some f => 46 :: f end.
+Definition render_exp (ex : option (byte * option bool * list byte)) : list byte :=
+  match ex with None => [] | Some (c, s, ds) => c :: render_sign s ++ ds end.
+Lemma render_wlit_eq w :
+  render_wlit w = render_sign (wl_sign w) ++ wl_int w ++ render_frac (wl_frac w) ++ render_exp (wl_exp w).
+Proof. reflexivity. Qed.
+
+Lemma match_nonempty {A B} (l : list A) (x y : B) :
+  nonempty l = true -> match l with [] => x | _ :: _ => y end = y.
+Proof. destruct l; [discriminate|reflexivity]. Qed.
+
+Lemma blank_not c : is_blank c = true ->
+  (c =? 46) = false /\ (c =? 101) = false /\ (c =? 69) = false /\ is_digit c = false.
+Proof. unfold is_blank, is_space, is_digit. lia. Qed.
+
+Lemma scan_float_lit sep w r :
+  blanks sep = true -> wlit_ok w = true -> starts_blank r ->
+  exists r', scan_float (sep ++ render_wlit w ++ r) = CVal (Qred (wlit_value w)) r'.
+Proof.
+  intros Hsep Hok Hr.
+  assert (forall r', CVal (dec_value (sign_neg (wl_sign w)) (digits_value (wl_int w ++ frac_digits w))
+                                    (wlit_exp w - Z.of_nat (length (frac_digits w)))) r'
+                     = CVal (Qred (wlit_value w)) r') as Hval.
+  { intros r'. f_equal. rewrite dec_value_raw. apply Qred_complete. symmetry. apply wlit_value_raw. }
+  unfold wlit_ok in Hok.
+  apply andb_true_iff in Hok. destruct Hok as [Hok Hexp].
+  apply andb_true_iff in Hok. destruct Hok as [Hok Hne].
+  apply andb_true_iff in Hok. destruct Hok as [Hint Hfrac].
+  unfold wlit_exp, frac_digits in Hval.
+  destruct w as [sg ip fr ex]; cbn [wl_sign wl_int wl_frac wl_exp] in *.
+  rewrite render_wlit_eq; cbn [wl_sign wl_int wl_frac wl_exp].
+  set (sfrac := render_frac fr). set (sexp := render_exp ex).
+  set (fd := match fr with None => [] | Some f => f end) in *.
+  replace (sep ++ (render_sign sg ++ ip ++ sfrac ++ sexp) ++ r)
+    with (sep ++ render_sign sg ++ ip ++ sfrac ++ sexp ++ r) by (rewrite <- !app_assoc; reflexivity).
+  (* first byte of the unsigned part: a digit or '.' *)
+  assert (exists c0 t0, ip ++ sfrac ++ sexp ++ r = c0 :: t0 /\ (is_digit c0 = true \/ c0 = 46) /\
+                        (c0 = 48 -> match t0 with x :: _ => (x =? 120) = false /\ (x =? 88) = false | [] => True end))
+    as (c0 & t0 & E0 & Hc0 & Hx).
+  { destruct ip as [|c ip].
+    - destruct fr as [f|]; [|discriminate]. subst sfrac; unfold render_frac. eexists _, _. split; [reflexivity|]. split; [auto|lia].
+    - cbn [all_digits forallb] in Hint. apply andb_true_iff in Hint. destruct Hint as [Hc Hip].
+      eexists _, _. split; [reflexivity|]. split; [auto|]. intros _.
+      destruct ip as [|c' ip]; cbn [app].
+      + subst sfrac sexp; unfold render_frac, render_exp. destruct fr as [f|]; cbn [app]; [lia|].
+        destruct ex as [[[c' s] ds]|]; cbn [app].
+        * lia.
+        * destruct r as [|c' r]; [exact I|]. cbn in Hr. unfold is_blank, is_space in Hr. lia.
+      + cbn in Hip. unfold is_digit in Hip. lia. }
+  unfold scan_float. rewrite skip_ws_blanks by assumption.
+  rewrite skip_ws_nonspace.
+  2:{ destruct sg as [[|]|]; cbn [render_sign app]; try reflexivity. rewrite E0. cbn [starts_nonspace].
+      destruct Hc0 as [Hc0|Hc0]; [apply digit_nonspace; exact Hc0|subst c0; reflexivity]. }
+  rewrite scan_sign_render.
+  2:{ rewrite E0. cbn. unfold is_digit in Hc0. lia. }
+  replace (starts_unsupported (ip ++ sfrac ++ sexp ++ r)) with false.
+  2:{ rewrite E0. unfold starts_unsupported. unfold is_digit in Hc0.
+      destruct (Z.eq_dec c0 48) as [E48|N48].
+      - specialize (Hx E48). subst c0. destruct t0 as [|x t0]; cbn; [reflexivity|]. cbn. lia.
+      - lia. }
+  (* integer part *)
+  assert (starts_nondigit (sexp ++ r)) as Hnd3.
+  { subst sexp; unfold render_exp. destruct ex as [[[c s] ds]|]; cbn [app].
+    - cbn. unfold is_digit. lia.
+    - apply starts_blank_nondigit. exact Hr. }
+  assert (starts_nondigit (sfrac ++ sexp ++ r)) as Hnd2.
+  { subst sfrac; unfold render_frac. destruct fr as [f|]; cbn [app]; [reflexivity|exact Hnd3]. }
+  rewrite span_digits_app by assumption.
+  (* fraction *)
+  assert ((match sfrac ++ sexp ++ r with
+           | c :: t => if c =? 46 then span_digits t else ([], sfrac ++ sexp ++ r)
+           | [] => ([], [])
+           end) = (fd, sexp ++ r)) as ->.
+  { subst sfrac fd; unfold render_frac. destruct fr as [f|]; cbn [app].
+    - cbn. rewrite span_digits_app by assumption. reflexivity.
+    - subst sexp; unfold render_exp. destruct ex as [[[c s] ds]|]; cbn [app].
+      + replace (c =? 46) with false by lia. reflexivity.
+      + destruct r as [|c r]; [reflexivity|]. cbn in Hr. destruct (blank_not _ Hr) as (-> & _). reflexivity. }
+  rewrite match_nonempty by assumption.
+  (* exponent *)
+  subst sexp; unfold render_exp. destruct ex as [[[c s] ds]|]; cbn [app].
+  - apply andb_true_iff in Hexp. destruct Hexp as [Hexp Hds]. apply andb_true_iff in Hexp. destruct Hexp as [Hc Hdn].
+    rewrite Hc. rewrite <- app_assoc. rewrite scan_sign_render by (apply digits_unsigned; assumption).
+    rewrite span_digits_app by (auto using starts_blank_nondigit).
+    rewrite match_nonempty by assumption. eexists. apply Hval.
+  - destruct r as [|c r].
+    + eexists. rewrite <- (Hval []). repeat f_equal; try lia.
+    + cbn in Hr. destruct (blank_not _ Hr) as (_ & -> & -> & _). cbn [orb].
+      eexists. rewrite <- (Hval (c :: r)). repeat f_equal; try lia.
+Qed.
+
+Lemma scan_float_blanks b : blanks b = true -> scan_float b = CFail.
+Proof. intros H. unfold scan_float. rewrite skip_ws_all_blanks by assumption. reflexivity. Qed.
